@@ -11,7 +11,7 @@
      LessThanOrEquals<U,V>::prune  props/leq.rs:25-31   -> prune_fleq      (U, V any fview)
      Eq<U,V>::prune                props/eq.rs:17-26    -> prune_feq
      Propagators::less_than / greater_than / greater_than_or_equals (props/mod.rs:823-882, 1249-1284):
-        x < y  = LessThanOrEquals(x.next(), y),  x > y = LessThanOrEquals(y.next(), x),  x >= y = LessThanOrEquals(y, x)
+        x < y  = LessThan(x, y) (see prune_flt),  x > y = LessThan(y, x),  x >= y = LessThanOrEquals(y, x)
    A propagator is a record {fprune; ftrig} (ftrig = list_trigger_vars in order); the engine of
    Model/FloatSearch.v is generic in such records.
    Coefficient and variable lists are assumed to have the same length (Model::lin_* validates it at post
@@ -52,7 +52,28 @@ Fixpoint sum_others (term : f64 -> nat -> f64) (cs : list f64) (vs : list nat) (
   end.
 
 (* ---------------------------------------------------------------- FloatLinLe *)
+(* flin_le_step is the code AFTER the repair "FloatLinLe bounds integer variables too": the current bound of the variable
+   is read as f64 (`i as f64` for an integer variable) and the new bound is applied to integer variables as well
+   (try_set_max floors / try_set_min takes the ceiling of a float bound).  flin_le_step_prefix is the code before the repair
+   (`if let Val::ValF(..) = var.max(ctx)`: an integer variable was never tightened), kept for int_in_floatlin_prefix_refuted. *)
 Definition flin_le_step (cs : list f64) (vs : list nat) (k : f64) (i : nat) (coeff : f64) (v : nat) (c : fctx) : option fctx :=
+  if flt (fabs coeff) c_zero_coeff then Some c
+  else
+    let s := fst c in
+    let min_other := sum_others (fun cj vj => term_min cj s vj) cs vs i 0 c_zero in
+    let remaining := fsub k min_other in
+    if fgt coeff c_zero then
+      let max_val := fdiv remaining coeff in
+      if fis_finite max_val then
+        (if flt max_val (ub_f s v) then xset_max v (VlF max_val) c else Some c)
+      else Some c
+    else
+      let min_val := fdiv remaining coeff in
+      let normalized := if feq min_val c_zero then c_zero else min_val in
+      if fis_finite normalized then
+        (if fgt normalized (lb_f s v) then xset_min v (VlF normalized) c else Some c)
+      else Some c.
+Definition flin_le_step_prefix (cs : list f64) (vs : list nat) (k : f64) (i : nat) (coeff : f64) (v : nat) (c : fctx) : option fctx :=
   if flt (fabs coeff) c_zero_coeff then Some c
   else
     let s := fst c in
@@ -63,7 +84,7 @@ Definition flin_le_step (cs : list f64) (vs : list nat) (k : f64) (i : nat) (coe
       if fis_finite max_val then
         match var_max (fget s v) with
         | VlF current_max => if flt max_val current_max then xset_max v (VlF max_val) c else Some c
-        | VlI _ => Some c                      (* `if let Val::ValF(..)`: an integer variable is never tightened *)
+        | VlI _ => Some c
         end
       else Some c
     else
@@ -88,6 +109,8 @@ Fixpoint flin_loop (step : nat -> f64 -> nat -> fctx -> option fctx) (cs : list 
 
 Definition prune_flin_le (cs : list f64) (vs : list nat) (k : f64) (c : fctx) : option fctx :=
   flin_loop (flin_le_step cs vs k) cs vs 0 c.
+Definition prune_flin_le_prefix (cs : list f64) (vs : list nat) (k : f64) (c : fctx) : option fctx :=
+  flin_loop (flin_le_step_prefix cs vs k) cs vs 0 c.
 Definition mk_flin_le cs vs k : fprop := mkfprop (prune_flin_le cs vs k) vs.
 
 (* ---------------------------------------------------------------- FloatLinEq *)
@@ -279,9 +302,17 @@ Definition prune_fleq (x y : fview) (c : fctx) : option fctx :=
   | Some c1 => fv_set_min y (fv_min x (fst c1)) c1
   end.
 Definition mk_fleq (x y : fview) : fprop := mkfprop (prune_fleq x y) (under_list x ++ under_list y).
-Definition mk_flt (x y : fview) : fprop := mk_fleq (FNext x) y.       (* less_than *)
+(* LessThan::prune (props/leq.rs, after the repair "strict comparison of an integer view with a float variable"):
+   x < y is x.next() <= y, except for an integer-valued x below a float VARIABLE y, where it is x <= y.prev().
+   prune_flt_prefix is the encoding before the repair (always x.next() <= y), kept for mixed_strict_prefix_refuted. *)
+Definition int_below_float_var (x y : fview) (s : fstore) : bool :=
+  negb (fv_is_float x s) && fv_is_float y s && (match fv_under y with Some _ => true | None => false end).
+Definition prune_flt (x y : fview) (c : fctx) : option fctx :=
+  if int_below_float_var x y (fst c) then prune_fleq x (FPrev y) c else prune_fleq (FNext x) y c.
+Definition prune_flt_prefix (x y : fview) (c : fctx) : option fctx := prune_fleq (FNext x) y c.
+Definition mk_flt (x y : fview) : fprop := mkfprop (prune_flt x y) (under_list x ++ under_list y).   (* less_than *)
 Definition mk_fgeq (x y : fview) : fprop := mk_fleq y x.               (* greater_than_or_equals *)
-Definition mk_fgt (x y : fview) : fprop := mk_fleq (FNext y) x.       (* greater_than *)
+Definition mk_fgt (x y : fview) : fprop := mk_flt y x.                 (* greater_than: y < x *)
 
 (* Eq::prune *)
 Definition prune_feq (x y : fview) (c : fctx) : option fctx :=
